@@ -331,6 +331,20 @@ func structuredMutants() []mutant {
 		add("skipped-lines", fmt.Sprintf("motd-x%d/slave", n), slaveEmpty, strings.Repeat("m\r", n)+masterHS+"FF\r")
 	}
 	turn("proposal", "dup-mid-in-block", block(okLine, okLine, okLine)+goodFrame+"FF\r")
+	// the repeated identifier (which the station answers by itself) in every position relative to an ordinary
+	// proposal, and every odd proposal line in front of an ordinary one
+	other := msgBytes("OTHERMSG", 11)
+	otherPayload := lzref.EncodeB2(other)
+	otherFrame := string(b2fref.EncodeFrame("other", "0", otherPayload, fixed125))
+	otherLine := b2fref.ProposalLine('C', "EM", "OTHERMSG", len(other), len(otherPayload))
+	turn("proposal", "dup-mid-then-other", block(okLine, okLine, otherLine)+goodFrame+otherFrame+"FF\r")
+	turn("proposal", "dup-mid-around-other", block(okLine, otherLine, okLine)+goodFrame+otherFrame+"FF\r")
+	turn("proposal", "other-then-dup-mid", block(otherLine, okLine, okLine)+otherFrame+goodFrame+"FF\r")
+	turn("proposal", "dup-mid-twice-then-others", block(okLine, okLine, okLine, otherLine, otherLine)+goodFrame+otherFrame+"FF\r")
+	for id, l := range propLines {
+		turn("proposal", id+"/before-good", block(l, okLine)+goodFrame+"FF\r")
+		turn("proposal", id+"/between-good", block(otherLine, l, okLine)+otherFrame+goodFrame+"FF\r")
+	}
 	turn("proposal", "err-line", "*** something broke\r")
 	turn("proposal", "one-char-lines", "F\rX\r;\r*\r")
 
@@ -518,8 +532,11 @@ func runStructured(r *runner, p params) {
 		if i%p.Shards != p.Shard {
 			continue
 		}
-		r.replay(m.world, m.script, m.class, m.id)
-		r.replay(m.world, m.script, m.class, m.id) // again with the other status-updater setting (replay alternates)
+		// four times: with and without a status updater, with the plain and with the batched mailbox handler
+		// (replay rotates through the four combinations)
+		for k := 0; k < 4; k++ {
+			r.replay(m.world, m.script, m.class, m.id)
+		}
 	}
 	if p.Shard < len(ms) {
 		m := ms[p.Shard]
